@@ -17,7 +17,7 @@ import (
 )
 
 type monitor struct {
-	events  int // observations made (a monitor that matches no function of the code under test is blind)
+	events     int // observations made (a monitor that matches no function of the code under test is blind)
 	onEnter    func(fr *frame, fn *ssa.Function, args []value)
 	onExit     func(fr *frame, fn *ssa.Function)
 	onStore    func(fr *frame, addr *value)
@@ -170,6 +170,7 @@ func (m *Machine) resetPath() {
 	i.monitor = nil
 	i.panicOrigin = nil
 	i.osOut = ""
+	i.stdin, i.stdinOff = nil, 0
 	for _, g := range m.utGlobal {
 		*i.globals[g] = zero(mustDeref(g.Type()))
 	}
@@ -403,6 +404,12 @@ func init() {
 		},
 		"symFreshProcess": func(fr *frame, args []value) value {
 			fr.i.fresh()
+			return nil
+		},
+		"symSetStdin": func(fr *frame, args []value) value {
+			b, _ := args[0].([]value)
+			fr.i.stdin = append([]value(nil), b...)
+			fr.i.stdinOff = 0
 			return nil
 		},
 		"symOSOutput": func(fr *frame, args []value) value {
